@@ -842,7 +842,7 @@ impl World {
         let pos_units = *base.pos_rent.get(&id).unwrap_or(&2);
         fx.bank.set(position, ::whirlpool::ID, min_balance(pdata.len()) + pos_units as u64 * TICK_RENT, pdata);
         fx.bank.set(pmint, anchor_spl::token::ID, 1_000_000, crate::fixture::mint_data(false, 0, None, 0));
-        fx.bank.set(ptoken, anchor_spl::token::ID, 2_000_000, crate::fixture::token_account_data(false, &pmint, &fx.trader, 1, false));
+        fx.bank.set(ptoken, anchor_spl::token::ID, 2_000_000, crate::fixture::token_account_data(false, &pmint, &fx.trader, if auth_mode == 5 { 0 } else { 1 }, false)); // mode 5: the signer's account of the position mint is EMPTY
         fx.bank.set(stranger, crate::svm::system_id(), 1_000_000, vec![]);
         let (omint, otoken) = (k(0x64, id as u8), k(0x66, id as u8));
         fx.bank.set(omint, anchor_spl::token::ID, 1_000_000, crate::fixture::mint_data(false, 0, None, 0));
@@ -956,7 +956,7 @@ impl World {
             }
             Ok(()) => {
                 if auth_mode != 0 {
-                    viols.push(format!("C04/C15 the liquidity instruction succeeded although {} (mode {})", match auth_mode { 3 => "a stranger holding one token of ANOTHER mint signed as the position's authority", 4 => "the position belongs to another pool than the one named", _ => "the position owner did not sign" }, auth_mode));
+                    viols.push(format!("C04/C15 the liquidity instruction succeeded although {} (mode {})", match auth_mode { 3 => "a stranger holding one token of ANOTHER mint signed as the position's authority", 4 => "the position belongs to another pool than the one named", 5 => "the signer's account of the position mint holds no token", _ => "the position owner did not sign" }, auth_mode));
                 }
                 if let Some(pe) = by.as_ref().and_then(|b| b.pre_err.clone()) {
                     viols.push(format!("C08 increase_liquidity_by_token_amounts_v2 succeeded although it must fail with {}", pe));
@@ -1375,6 +1375,7 @@ impl World {
         let tdata = match auth_mode {
             3 => token_account_delegated(&pmint, &fx.trader, 1, &delegate, 1),
             4 => token_account_delegated(&pmint, &fx.trader, 1, &delegate, 0),
+            7 => crate::fixture::token_account_data(false, &pmint, &fx.trader, 0, false), // the signer's account of the position mint is EMPTY
             _ => crate::fixture::token_account_data(false, &pmint, &fx.trader, 1, false),
         };
         fx.bank.set(ptoken, anchor_spl::token::ID, 2_100_000, tdata);
@@ -1499,6 +1500,10 @@ impl World {
                 }
                 if auth_mode == 6 {
                     viols.push(format!("C04 position instruction `{}` accepted a stranger who holds one token of ANOTHER mint as the position's authority", kind));
+                    return XHopOut { line: "ACCEPTED".to_string(), viols, tags };
+                }
+                if auth_mode == 7 {
+                    viols.push(format!("C04 position instruction `{}` accepted a signer whose account of the position mint holds NO token", kind));
                     return XHopOut { line: "ACCEPTED".to_string(), viols, tags };
                 }
                 if !authorised {
@@ -1742,7 +1747,7 @@ impl World {
         let pos_units = *base.pos_rent.get(&id).unwrap_or(&2);
         fx.bank.set(position, ::whirlpool::ID, min_balance(pdata.len()) + pos_units as u64 * TICK_RENT, pdata);
         fx.bank.set(pmint, anchor_spl::token::ID, 1_000_000, crate::fixture::mint_data(false, 0, None, 0));
-        fx.bank.set(ptoken, anchor_spl::token::ID, 2_000_000, crate::fixture::token_account_data(false, &pmint, &fx.trader, 1, false));
+        fx.bank.set(ptoken, anchor_spl::token::ID, 2_000_000, crate::fixture::token_account_data(false, &pmint, &fx.trader, if auth_mode == 5 { 0 } else { 1 }, false)); // mode 5: the signer's account of the position mint is EMPTY
         fx.bank.set(stranger, crate::svm::system_id(), 1_000_000_000, vec![]);
         let (omint, otoken) = (k(0x64, id as u8), k(0x66, id as u8));
         fx.bank.set(omint, anchor_spl::token::ID, 1_000_000, crate::fixture::mint_data(false, 0, None, 0));
@@ -1843,7 +1848,7 @@ impl World {
             }
             Ok(()) => {
                 if auth_mode != 0 {
-                    viols.push(format!("C04/C15 reposition succeeded although {} (mode {})", match auth_mode { 3 => "a stranger holding one token of ANOTHER mint signed as the position's authority", 4 => "the position belongs to another pool than the one named", _ => "the position owner did not sign" }, auth_mode));
+                    viols.push(format!("C04/C15 reposition succeeded although {} (mode {})", match auth_mode { 3 => "a stranger holding one token of ANOTHER mint signed as the position's authority", 4 => "the position belongs to another pool than the one named", 5 => "the signer's account of the position mint holds no token", _ => "the position owner did not sign" }, auth_mode));
                 }
                 match (&ref_full, &expect) {
                     (Ok((da, db, ia, ib)), Some(((ta, fa, from_a), (tb, fb, from_b)))) => {
@@ -2003,7 +2008,7 @@ impl World {
             pdata[40..72].copy_from_slice(pmint.as_ref());
             fx.bank.set(position, ::whirlpool::ID, min_balance(pdata.len()) + 2 * TICK_RENT, pdata);
             fx.bank.set(pmint, anchor_spl::token::ID, 1_000_000, crate::fixture::mint_data(false, 0, None, 0));
-            fx.bank.set(ptoken, anchor_spl::token::ID, 2_000_000, crate::fixture::token_account_data(false, &pmint, &fx.trader, 1, false));
+            fx.bank.set(ptoken, anchor_spl::token::ID, 2_000_000, crate::fixture::token_account_data(false, &pmint, &fx.trader, if auth_mode == 5 { 0 } else { 1 }, false)); // mode 5: the signer's account of the position mint is EMPTY
         }
         let bank0 = fx.bank.clone();
         let bal = |b: &Bank, key: &Pubkey| token_amount(&b.data(key));
@@ -2086,7 +2091,10 @@ impl World {
         // modes 3 / 4 (C15): the vault slot (4: the second vault of collect_protocol_fees) holds a byte-identical copy
         // of the pool's vault at another address - right mint, right token program, authority = the pool
         let mut bank0 = bank0;
-        if auth_mode >= 3 {
+        if auth_mode == 5 && kind != "crew" {
+            return XHopOut { line: "err NotAVariant".to_string(), viols, tags };
+        }
+        if auth_mode == 3 || auth_mode == 4 {
             let target = match kind {
                 "cproto" => if auth_mode == 4 { fx.vault_b } else { fx.vault_a },
                 _ => rvault(idx),
@@ -2107,6 +2115,10 @@ impl World {
                 let name = err_name(e, &out.logs);
                 if fx.bank.accts != bank0.accts {
                     viols.push("a failed reward / protocol-fee instruction changed account state".to_string());
+                }
+                if auth_mode == 5 {
+                    tags.push("rew_empty_token_account_rejected");
+                    return XHopOut { line: format!("err {}", name), viols, tags };
                 }
                 if auth_mode >= 3 {
                     tags.push("rew_cloned_vault_rejected");
@@ -2139,6 +2151,10 @@ impl World {
                 format!("err {}", name)
             }
             Ok(()) => {
+                if auth_mode == 5 {
+                    viols.push(format!("C04 collect_reward v{} accepted a signer whose account of the position mint holds NO token", ver));
+                    return XHopOut { line: "ACCEPTED".to_string(), viols, tags };
+                }
                 if auth_mode >= 3 {
                     viols.push(format!("C15 `{}` v{} accepted, in its vault slot, a token account of the right mint and authority that is not the pool's vault", kind, ver));
                     return XHopOut { line: "ACCEPTED".to_string(), viols, tags };
@@ -2275,7 +2291,7 @@ impl World {
         let pos_units = *base.pos_rent.get(&id).unwrap_or(&2);
         fx.bank.set(position, ::whirlpool::ID, min_balance(pdata.len()) + pos_units as u64 * TICK_RENT, pdata);
         fx.bank.set(pmint, t22, 3_000_000, t22_mint_with_freeze(1, &position));
-        fx.bank.set(ptoken, t22, 2_100_000, t22_token_account(&pmint, &fx.trader, 1));
+        fx.bank.set(ptoken, t22, 2_100_000, t22_token_account(&pmint, &fx.trader, if auth_mode == 6 { 0 } else { 1 })); // mode 6: an EMPTY account of the position mint
         fx.bank.set(dest, t22, 2_100_000, t22_token_account(&pmint, &stranger, 0));
         fx.bank.set(stranger, crate::svm::system_id(), 1_000_000_000, vec![]);
         fx.bank.set_program(crate::svm::system_id());
@@ -2333,6 +2349,10 @@ impl World {
                 return XHopOut { line: format!("err {}", name), viols, tags };
             }
             Ok(()) => {
+                if auth_mode == 6 {
+                    viols.push("C04 lock_position accepted a signer whose account of the position mint holds NO token".to_string());
+                    return XHopOut { line: "ACCEPTED".to_string(), viols, tags };
+                }
                 if auth_mode >= 3 {
                     viols.push(format!("C15 lock_position succeeded although {}", match auth_mode { 3 => "the lock config is not at the position's lock-config address", 4 => "the mint offered is not the position's mint", _ => "the position belongs to another pool than the one named" }));
                     return XHopOut { line: "ACCEPTED".to_string(), viols, tags };
